@@ -12,6 +12,9 @@ const (
 	// VerifKindPush: reported right after a result was pushed on the
 	// operand stack (osTop is the slot that was written).
 	VerifKindPush uint8 = 1
+	// VerifKindJump: reported inside the short-circuit jump / climbing loops,
+	// pc is the jump target (-1: evaluation ends).
+	VerifKindJump uint8 = 4
 
 	VerifModeEval    uint8 = 0
 	VerifModeTryEval uint8 = 2
